@@ -31,7 +31,7 @@ Pos == 1..NIdx
 UMat == << <<3234, 4317, 752>>, <<6956, 6884, 7695>>, <<2933, 9037, 9243>> >>
 Model ==
   [noa |-> 2, nob |-> 0, nva |-> 1, nvb |-> 0, seed |-> 1,
-   restricted |-> FALSE, spincons |-> FALSE, fock |-> "gen", eri |-> "gen",
+   restricted |-> FALSE, spincons |-> FALSE, scn |-> <<>>, fock |-> "gen", eri |-> "gen",
    re |-> 0, rD |-> 0, rf |-> 0, rv |-> 0, rV |-> 0, rU |-> 2, umat |-> UMat,
    bkn |-> <<0, 0>>, tabs |-> << <<>>, <<>> >>]
 ASSUME UnitaryCertified(Model, 1..3)
